@@ -7,6 +7,13 @@ import json
 import vlib
 
 
+def property_conditions_hold(trace):
+    """Trace_PlanCache rejected the trace: does it still satisfy the property-level conditions alone (capacity, map/queue
+    consistency, plans under their own symbol count, transparent encoders)?"""
+    r = vlib.tlc('Trace_PlanCacheProp', env={'TRACE': trace}, deque=True, timeout=3000, tag='Trace_PlanCacheProp')
+    return r.ok
+
+
 def run(chk):
     exe = vlib.build_harness('release')
     res = vlib.tlc('MC_PlanCache', workers=8, xss='64m', timeout=1800, tag='MC_PlanCache', coverage=not chk.quick)
@@ -57,12 +64,21 @@ def run(chk):
             raise vlib.ToolError('plancache-replay failed: ' + out[-400:])
         vlib.log('[replay] forced schedules: ' + out.strip().splitlines()[-1])
         mism = vlib.read_ndjson(cout)
-        for m in mism[:5]:
+        # a condition of the property itself failed on an observed state -> violation; the execution merely left the
+        # model's behaviours (another eviction order, another shape of a request) -> model deviation, reported, no alarm
+        bad = [m for m in mism if m.get('property_level')]
+        dev = [m for m in mism if not m.get('property_level')]
+        for m in bad[:5]:
             order = ''.join('%d%s' % (s['t'], s['act'][0]) for s in m['case']['steps'])
             chk.violation('plancache-schedule:prefill=%d:keys=%s:%s' % (m['case']['prefill'], m['case']['keys'], order),
                           'forced interleaving disagrees with the specification: ' + '; '.join(m['mismatch'])[:500],
                           {'case': m['case'], 'got': m['got'], 'mismatch': m['mismatch']})
-        ok = not mism
+        for m in dev[:2]:
+            order = ''.join('%d%s' % (s['t'], s['act'][0]) for s in m['case']['steps'])
+            chk.deviation('plancache-schedule:prefill=%d:keys=%s:%s' % (m['case']['prefill'], m['case']['keys'], order),
+                          'forced interleaving left the model (%d schedules): ' % len(dev) + '; '.join(m['mismatch'])[:400],
+                          {'case': m['case'], 'got': m['got'], 'mismatch': m['mismatch']})
+        ok = not bad
         chk.cov['traces_validated_against_impl'] += len(scheds) - len(mism)
         chk.sample({'prefill': scheds[0]['prefill'], 'keys': scheds[0]['keys'], 'steps': [[s['t'], s['act'], s['key'], s['drop'], s['app']] for s in scheds[0]['steps']]})
     # free-running threads
@@ -80,7 +96,7 @@ def run(chk):
     results = vlib.tlc_parallel([dict(module='Trace_PlanCache', env={'TRACE': t}, deque=True, timeout=3000, tag='Trace_PlanCache[%d]' % i)
                                  for i, t in enumerate(traces)], max_parallel=12)
     for i, (t, r) in enumerate(zip(traces, results)):
-        ok = vlib.judge_trace(chk, r, 'Trace_PlanCache', t, 'Trace_PlanCache[%d]' % i,
+        ok = vlib.judge_trace(chk, r, 'Trace_PlanCache', t, 'Trace_PlanCache[%d]' % i, advisory=property_conditions_hold,
                               key_of=lambda ev, mism: 'plancache-log:%s:key=%s' % (ev.get('kind', ev.get('ev')), ev.get('key')) if ev else None) and ok
     chk.cov['evaluations'] = len(scheds) + nev
     chk.cov['distinct_nontrivial'] = len(scheds) if ok else 0
@@ -94,4 +110,5 @@ def run(chk):
                        'returned encoder with a cache-less one; free-running: 16 threads, up to 200 sizes, logged under the mutex; '
                        'distinct_nontrivial = distinct forced schedules')
     chk.assumptions += ['the yield hook sits immediately before each lock(); the event hook runs while the mutex is held',
-                        'interleavings inside plan generation are irrelevant (no shared state is touched there)']
+                        'interleavings inside plan generation are irrelevant (no shared state is touched there)',
+                        'the eviction order (FIFO) and the three-section shape of a request are part of the model, not of the property: leaving them while capacity, map/queue consistency, plan identity and transparency hold is reported as MODEL-DEVIATION, not as a violation']
